@@ -147,7 +147,7 @@ func entsEq(a, b []Ent) bool {
 func c03(r *rng, tier string, o *out) {
 	n := 600
 	if tier == "thorough" {
-		n = 40000
+		n = 100000
 	}
 	emit := func(line string, nontrivial bool, tag string) {
 		impl, viol := runCase("C03", line)
